@@ -38,10 +38,12 @@ def exec_number(rec):
             elem = DC.build_element(spec)
             with warnings.catch_warnings():
                 warnings.simplefilter('ignore')
+                per = DC.period_of(rec['mesh'])
                 if rec.get('via') == 'dofs':
-                    return DC.number_event(mesh, elem, Dofs(mesh, elem), None, rec.get('drift', 0))
+                    return DC.number_event(mesh, elem, Dofs(mesh, elem), None, rec.get('drift', 0), period=per)
                 b = CellBasis(mesh, elem, intorder=rec.get('intorder', 1))
-            return DC.number_event(mesh, elem, b, getattr(b, 'doflocs', None), rec.get('drift', 0), with_locs=True)
+            return DC.number_event(mesh, elem, b, getattr(b, 'doflocs', None), rec.get('drift', 0), with_locs=True,
+                                   period=per)
         if merr:
             ev, err = None, merr
         else:
@@ -220,6 +222,18 @@ def generate(ctx):
             for a in range(0, len(elems), 12):
                 recs.append({'driver': 'number', 'family': fam, 'via': 'basis', 'drift': 1, 'mesh': mrec,
                              'elems': elems[a:a + 12]})
+    # --- periodic meshes (identified topology, per-cell geometry): Number events and a few matrices
+    for fam, mrec in DC.periodic_meshes(ctx.tier):
+        kind = mrec['kind']
+        nt = len(mrec['t'][0])
+        elems = [s for s in DC.PERIODIC_ELEMS[kind] if thorough or nt <= 9 or DC.label(s) in ('ElementHex1', 'ElementHex2')]
+        recs.append({'driver': 'number', 'family': fam, 'via': 'basis', 'drift': 1, 'mesh': mrec, 'elems': elems})
+        if len(mrec['periodic']['dirs']) >= 2 or thorough:
+            st = DC.PERIODIC_ELEMS[kind][1 if nt <= 9 else 0]
+            base = {'driver': 'matrix', 'family': fam, 'mesh': mrec, 'test': st, 'trial': st, 'intorder': 3}
+            recs.append(dict(base, sub={'mode': 'all'}))
+            recs.append(dict(base, sub={'mode': 'cells',
+                                        'ids': sorted(rng.choice(nt, max(1, nt // 3), replace=False).tolist())}))
     # --- Matrix events
     for kind in by_kind:
         cat = DC.catalogue(kind)
